@@ -18,7 +18,7 @@ def model_level_cases():
     from sfc_models.sector import Sector
     bad = []
     n = 0
-    for T, form, nval in itertools.product((0, 1, 3), ('list', 'tuple', 'str', 'repeat-str'), (1, 2, 4, 6)):
+    for T, form, nval, icv in itertools.product((0, 1, 3), ('list', 'tuple', 'str', 'repeat-str'), (1, 2, 4, 6), (7.25, 0.0, -3.0)):
         vals = [1.5 + 0.25 * i for i in range(nval)]
         m = Model()
         c = Country(m, 'CO')
@@ -29,23 +29,25 @@ def model_level_cases():
         spec = {'list': list(vals), 'tuple': tuple(vals), 'str': repr(vals), 'repeat-str': '[%r,]*%d' % (vals[0], nval)}[form]
         want = vals if form != 'repeat-str' else [vals[0]] * nval
         m.AddExogenous('S', 'G', spec)
-        m.AddInitialCondition('S', 'Y', 7.25)
+        m.AddInitialCondition('S', 'Y', icv)
+        s.AddVariable('D', 'derived only', 'G * 2')
+        m.AddInitialCondition('S', 'D', icv)
         m.MaxTime = T
         n += 1
         try:
             m.main()
         except ValueError:
             if nval >= T + 1:
-                bad.append((T, form, nval, 'rejected although long enough'))
+                bad.append((T, form, nval, icv, 'rejected although long enough'))
             continue
         if nval < T + 1:
-            bad.append((T, form, nval, 'accepted although too short'))
+            bad.append((T, form, nval, icv, 'accepted although too short'))
             continue
         ts = m.EquationSolver.TimeSeries
-        ok = all(len(ts[v]) == T + 1 for v in ts) and ts['S__G'] == want[0:T + 1] and ts['S__Y'][0] == 7.25 \
+        ok = all(len(ts[v]) == T + 1 for v in ts) and ts['S__G'] == want[0:T + 1] and ts['S__Y'][0] == icv and ts['S__D'][0] == icv \
             and all(ts['S__LAGY'][k] == ts['S__Y'][k - 1] for k in range(1, T + 1)) and all(ts['t'][k] == k for k in range(1, T + 1))
         if not ok:
-            bad.append((T, form, nval, 'series differ: %r' % ({v: ts[v] for v in ts},)))
+            bad.append((T, form, nval, icv, 'series differ: %r' % ({v: ts[v] for v in ts},)))
     return n, bad
 
 
@@ -219,7 +221,7 @@ def run(tier, seed):
     chk.discharged += n - len(bad)
     chk.sample({'harness': 'concrete Model.AddExogenous/AddInitialCondition/MaxTime through main()', 'cases': n, 'failures': len(bad)})
     if bad:
-        chk.violation('model-level:%r' % (bad[0][:3],), 'Model-level exogenous/IC/horizon: %r' % (bad[0],), REPLAY_MODEL)
+        chk.violation('model-level:%r' % (bad[0][:4],), 'Model-level exogenous/IC/horizon: %r' % (bad[0],), REPLAY_MODEL)
     chk.extra['states'] = max(len(res), 1)
     chk.extra['transitions'] = max(len(res), 1)
     chk.exhaustive = all(r['verdict'] in ('confirmed', 'counterexample') for r in res)
